@@ -427,6 +427,7 @@ func str2numFunc(scope *scope, args []value) (value, error) {
 	s := args[0].(*stringVal)
 	n, err := strconv.ParseFloat(s.V, 64)
 	if err != nil {
+		n = 0 // also for out of range values such as "1e999"
 		msg := fmt.Sprintf("str2num: cannot parse %q", s.V)
 		setGlobalErr(scope, msg)
 	}
@@ -443,6 +444,10 @@ func str2boolFunc(scope *scope, args []value) (value, error) {
 	resetGlobalErr(scope)
 	s := args[0].(*stringVal)
 	b, err := strconv.ParseBool(s.V)
+	if err == nil && len(s.V) == 1 && s.V != "1" && s.V != "0" {
+		err = strconv.ErrSyntax // "t", "T", "f" and "F" are not documented spellings
+		b = false
+	}
 	if err != nil {
 		msg := fmt.Sprintf("str2bool: cannot parse %q", s.V)
 		setGlobalErr(scope, msg)
